@@ -101,9 +101,14 @@ func (q *workQueue) done() {
 	q.cond.Broadcast()
 }
 
+var forceDonate = os.Getenv("GOSYM_FORCEDONATE") != ""
+
 func (q *workQueue) hungry() bool {
 	q.mu.Lock()
 	defer q.mu.Unlock()
+	if forceDonate {
+		return len(q.items) < 4
+	}
 	return q.waiting > 0 && len(q.items) < q.waiting
 }
 
